@@ -10,10 +10,10 @@ CHECKS = {
          "Held on N seeded (workload, configuration) executions of the real writer/readers; the evidence lists how many and of what shape. Exploration is the right level: the property quantifies over unbounded inputs x configurations and the code is single-threaded, so reach comes from input diversity.",
          "Call log recorded by the harness driver is ground truth; custom compression via lexer only; generator bounds in DESIGN.md section 3/C01.", "3/C01"),
  "C02": ("exploration", "differential monitor: index-based reads, Info-driven random access and metadata callbacks against the sequential scan and the call log",
-         "Every index-based spelling of Messages() is compared with the scan of the same file over all 256 summary-flag combinations; fall-back-or-error clause applied outside the indexed precondition.",
+         "Every index-based spelling of Messages() is compared with the scan of the same file over all 256 summary-flag combinations; two iterators of one Reader consumed alternately; fall-back-or-error clause applied outside the indexed precondition.",
          "The sequential scan is judged by C01; time-order correctness by C03.", "3/C02"),
  "C03": ("exploration", "order/exactly-once monitor over unique message ids; small-scope exhaustive enumeration (621435 files in the thorough tier) + random large files",
-         "Exhaustive over every file of <= 3 chunks x <= 3 messages x 4 timestamps (thorough), sampled in quick; random large files from two producers.",
+         "Exhaustive over every file of <= 3 chunks x <= 3 messages x 4 timestamps (thorough), sampled in quick; random large files from two producers; structured files with thousands of queued index entries and hundreds of simultaneously live chunks.",
          "Chunk membership from the reference encoder/decoder; cross-chunk ties unconstrained as in the property.", "3/C03"),
  "C04": ("exploration", "reference filter over the call log vs every window spelling x topic set x read mode",
          "Each read is compared with {m | topic in T and start <= t < end} computed from the call log; time-ordered results also satisfy C03's predicates.",
@@ -25,13 +25,13 @@ CHECKS = {
          "All CRC fields of all produced files recomputed with hash/crc32; held on the files listed in the evidence.",
          "hash/crc32 and the reference decoder's record positions.", "3/C06"),
  "C07": ("fault_enumeration", "exhaustive single-bit-flip enumeration of chunk payloads and attachment records + seeded overwrites, observed through the validating lexer",
-         "Every bit of every byte of every chunk payload / attachment record of the enumerated files is flipped; the oracle compares what is yielded before the first report with the original records.",
+         "Every bit of every byte of every chunk payload / attachment record of the enumerated files (none/zstd/lz4/custom compressor, incl. message-less chunks) is flipped; the oracle compares what is yielded before the first report with the original records; attachment CRCs are queried in both orders.",
          "Positions from the reference decoder; CRC-32 collisions would be reported (they are violations).", "3/C07"),
  "C08": ("exploration", "aggregate reference model over the call log vs Writer.Statistics, statistics record and Reader.Info",
          "Aggregates recomputed from the call log and compared with the three observation points on seeded and targeted stateful workloads.",
          "Call log is ground truth; chunk count and summary groups from the reference decoder.", "3/C08"),
  "C09": ("fault_enumeration", "exhaustive truncation at every byte offset, prefix/completeness oracle over lexer and scan iterator",
-         "Every cut position of every enumerated file x 3 reader configurations.",
+         "Every cut position of every enumerated small file x 3 reader configurations; boundary neighbourhoods plus seeded cuts of 1-2 MiB files holding records above 1 MiB and chunks above 64 KiB.",
          "Record boundaries from the reference decoder.", "3/C09"),
  "C10": ("exploration", "isolated child process with address-space cap, CPU watchdog, per-call journal and allocation accounting over structured mutations and random bytes",
          "Every public decode entry point on tens of thousands of hostile inputs per run; panics, process deaths, CPU overruns and single allocations >= 2^31 (or above configured limits) are violations.",
@@ -52,7 +52,7 @@ CHECKS = {
          "Every byte position of every enumerated file x 2 fault modes x 8 readers.",
          "'Clean EOF' = errors.Is(err, io.EOF).", "3/C15"),
  "C16": ("exploration", "differential monitor across implementations: Go writer -> Python readers and Python writer -> Go readers, compared with the call log",
-         "Files exchanged in both directions through /verif/py/interop.py running the repository's Python library.",
+         "Files exchanged in both directions through /verif/py/interop.py running the repository's Python library (fresh reader per query and one reused SeekingReader instance).",
          "Only uncompressed files (Python codecs absent); system python3.", "3/C16"),
  "C17": ("exploration", "exhaustive replay of the finite conformance matrix through the two Go tools built from the working tree, inputs pinned by SHA-256",
          "All 416 vectors: read tool on regenerated binaries (pinned to LFS SHA-256), write tool on all descriptions.",
